@@ -36,6 +36,8 @@ func execDescriptor(line string) *result {
 		return runHammer(line)
 	case len(f) > 0 && f[0] == "lockrace":
 		return runLockRace(line)
+	case len(f) > 0 && f[0] == "sync":
+		return runSync(line)
 	}
 
 	return nil
@@ -75,7 +77,7 @@ func main() {
 	if lines := r.ReplayLines(); lines != nil {
 		for _, l := range lines {
 			f := strings.Fields(l)
-			if len(f) > 0 && (f[0] == "sched" || f[0] == "run" || f[0] == "group" || f[0] == "hammer" || f[0] == "lockrace") {
+			if len(f) > 0 && (f[0] == "sched" || f[0] == "run" || f[0] == "group" || f[0] == "hammer" || f[0] == "lockrace" || f[0] == "sync") {
 				jobs = append(jobs, job{0, l})
 			}
 		}
@@ -111,6 +113,7 @@ func main() {
 		}
 		jobs = append(jobs, job{0, fmt.Sprintf("hammer %d 1", 1500*r.Scale)}, job{0, fmt.Sprintf("hammer %d 2", 1500*r.Scale)})
 		jobs = append(jobs, job{0, fmt.Sprintf("lockrace %d 1", 150*r.Scale)})
+		jobs = append(jobs, job{0, "sync seq 1 80"}, job{0, "sync seq 2 200"})
 		for _, d := range groupCorpus() {
 			jobs = append(jobs, job{0, d})
 		}
@@ -121,6 +124,11 @@ func main() {
 			rng, sub := r.Rng.Fork()
 			if i%8 == 7 {
 				jobs = append(jobs, job{sub, genGroup(rng)})
+
+				continue
+			}
+			if i%16 == 3 {
+				jobs = append(jobs, job{sub, fmt.Sprintf("sync seq %d %d", rng.U64()%1000000, rng.Range(20, 160))})
 
 				continue
 			}
